@@ -1,6 +1,6 @@
 (** C12 — capture filters.  Property theorems only; proofs live in Proofs/. *)
 From Coq Require Import List ZArith Bool.
-From TR Require Import Lib.Bytes Bpf.Vm Spec.C12 Generated.BpfProgs Proofs.C12Exact Wire.Decode Drv.Drivers Run.Drv Drv.Handshake Proofs.Linking Generated.FilterUse.
+From TR Require Import Lib.Bytes Bpf.Vm Spec.C12 Generated.BpfProgs Proofs.C12Exact Wire.Decode Drv.Drivers Run.Drv Drv.Handshake Proofs.Linking Generated.FilterUse Pol.SourceHist Proofs.SourceHistProofs.
 Import ListNotations.
 Open Scope Z_scope.
 
@@ -76,3 +76,22 @@ Theorem C12_filter_use_tied :
   /\ fu_tcp_TCPv4_Traceroute = model_filter_use VTcp /\ fu_sack_runSackTraceroute = model_filter_use VSack.
 Proof. repeat split; reflexivity. Qed.
 Print Assumptions C12_filter_use_tied.
+
+(** Histories on one capture socket (the socket as a state machine: a program is run over a frame when it arrives;
+    installing a program empties the queue first; "none" detaches).  After ANY history of installations and arrivals,
+    installing the program for [f] and receiving [frs] leaves in the queue exactly the frames of [frs] that the field-level
+    specification of [f] selects: exactness is a property of the last requested filter alone, and nothing captured
+    under an earlier filter survives.  (Kind 30 of the c12 lab runs the repository's afPacketSource through such histories.) *)
+Theorem C12_history_exact : forall h f frs,
+  f <> FsNone ->
+  queue (fold_left sstep (map OArrive frs) (install (srun h) f)) = filter (selects f) frs.
+Proof. exact history_exact. Qed.
+Print Assumptions C12_history_exact.
+
+Theorem C12_history_last_filter_decides : forall specs f fr, captured (specs ++ [f]) fr = selects f fr.
+Proof. exact captured_last. Qed.
+Print Assumptions C12_history_last_filter_decides.
+
+Theorem C12_history_stale_frames_dropped : forall specs f fr, f <> FsNone -> stale_captured (specs ++ [f]) fr = false.
+Proof. exact stale_never_after_program. Qed.
+Print Assumptions C12_history_stale_frames_dropped.
